@@ -175,6 +175,8 @@ func runC04(c *Ctx) {
 	c.Rule("C04.requeue", "coalesce.next forgets the key it dequeues on every path, so a change arriving while the previous value of the leaf is being sent is queued again (otherwise the subscriber never converges to the newest value)")
 	queueNextRepr(c, "C04.requeue")
 	resetRemoveAnnounce(c, "C04.reset-announce")
+	c.Rule("C04.registration-kept", "a stream's registration survives the end of other streams: removeQuery prunes a node only when it holds neither clients nor children (a pruned node silently stops every later change from reaching the subscribers registered below it)")
+	removeQueryPrune(c, "C04.registration-kept")
 	c.Rule("C04.reg-before-walk", "on every path of Server.Subscribe in STREAM mode, a call that registers the subscription with the match tree (reaches match.AddQuery) precedes every `go` of a function that walks the cache (reaches Cache.Query); STREAM paths that start a walk or the sender contain a registration")
 	c.Rule("C04.reg-all", "addSubscription calls match.AddQuery once for every subscription whose path is non-nil (the only skipped subscriptions are those with a nil path)")
 	c.Rule("C04.remove-late", "the remove function returned by the registration is used only as the operand of a defer in Subscribe (never called before the RPC ends) and the defer is present on every path that registered")
